@@ -1489,7 +1489,10 @@ def structured_variants(rng):
         a = ImageMesh(tuple(ext), f(origin), f(spacing))
         b = ImageMesh(tuple(ext), f(o2), f(s2))
     elif kind == "rect":
-        a = RectilinearMesh(tuple(ext), tuple(np.array(f(o)) for o in ords))
+        # a flat direction at coordinate zero may be given without ordinates (an empty array stands for [0.0])
+        empty_ok = rng.random() < 0.4
+        a = RectilinearMesh(tuple(ext), tuple(np.array([]) if (empty_ok and ext[k] == 0 and o[0] == 0) else np.array(f(o))
+                                              for k, o in enumerate(ords)))
         b = RectilinearMesh(tuple(ext), tuple(np.array(f(o)) for o in ords2))
     else:
         a = StructuredMesh(tuple(ext), np.array([f(p) for p in P1]))
@@ -1683,6 +1686,68 @@ def run_c16(ctx):
         elif not res["ab"] and canon["changed"] is None:
             ctx.violation("E4", f"identical {canon['kind']} meshes compare unequal", canon, impl=res)
         ctx.traces_validated += 1
+    # (1c) tolerances set by the user on a STRUCTURED mesh (image / rectilinear / structured grid): what is set is what is reported
+    #      and what decides — a grid shifted by `shift` along one direction is equal iff shift <= max(rel*|coordinate|, abs)
+    for it in range(60 if q else 1500):
+        try:
+            with quiet():
+                warnings.simplefilter("ignore")
+                canon0, a, _b, P1, _P2 = structured_variants(rng)
+        except Exception:  # noqa: BLE001
+            continue
+        if max(canon0["extents"]) > 8:
+            continue
+        from fieldcompare.mesh import ImageMesh, RectilinearMesh, StructuredMesh
+        mxc = max([abs(x) for p in P1 for x in p] + [Fr(1)])
+        shift = Fr(2) ** rng.randint(-30, -2) * mxc
+        d = rng.randrange(3)
+        which = rng.choice(["abs", "rel", "both_zero", "abs_big"])
+        rel_set, abs_set = {"abs": (0.0, float(shift * 4)), "rel": (float(shift * 4 / mxc) + 1e-300, 0.0), "both_zero": (0.0, 0.0),
+                            "abs_big": (0.0, float(shift / 4))}[which]
+        ext = tuple(canon0["extents"])
+        kind = canon0["kind"]
+        f3 = lambda l: tuple(float(x) for x in l)  # noqa: E731
+        org = [Fr(x) for x in canon0["origin"]]
+        spc = [Fr(x) for x in canon0["spacing"]]
+        ords = [[Fr(x) for x in o] for o in canon0["ordinates"]]
+        org2, ords2 = list(org), [list(o) for o in ords]
+        org2[d] += shift
+        ords2[d] = [x + shift for x in ords2[d]]
+        try:
+            with quiet():
+                warnings.simplefilter("ignore")
+                if kind == "image":
+                    m1, m2 = ImageMesh(ext, f3(org), f3(spc)), ImageMesh(ext, f3(org2), f3(spc))
+                elif kind == "rect":
+                    m1 = RectilinearMesh(ext, tuple(np.array(f3(o)) for o in ords))
+                    m2 = RectilinearMesh(ext, tuple(np.array(f3(o)) for o in ords2))
+                else:
+                    pp = lambda od: np.array([[float(od[0][i]), float(od[1][j]), float(od[2][k])]  # noqa: E731
+                                              for k in range(ext[2] + 1) for j in range(ext[1] + 1) for i in range(ext[0] + 1)])
+                    m1, m2 = StructuredMesh(ext, pp(ords)), StructuredMesh(ext, pp(ords2))
+                m1.set_tolerances(abs_tol=abs_set, rel_tol=rel_set)
+                seen = (float(m1.relative_tolerance), float(m1.absolute_tolerance))
+                got = bool(m1.equals(m2))
+        except Exception as e:  # noqa: BLE001
+            ctx.violation("E4", f"structured mesh with user tolerances raised {type(e).__name__}: {e}",
+                          {"kind": "structured user tolerances", "structured": canon0, "rel_tol": rel_set, "abs_tol": abs_set})
+            continue
+        canon = {"kind": "structured user tolerances", "structured": {k: canon0[k] for k in ("kind", "extents", "origin", "spacing", "ordinates")},
+                 "shift": [d, str(shift)], "rel_tol": rel_set, "abs_tol": abs_set}
+        ctx.case(canon, True, sample={"case": {"kind": kind, "which": which}, "impl": got, "reported": seen})
+        ctx.count(f"c16:structured user tolerances:{kind}:{which}")
+        if seen != (float(rel_set), float(abs_set)):
+            ctx.violation("E4", f"the tolerances set on the {kind} mesh ({rel_set}, {abs_set}) are not the ones it reports {seen}", canon)
+        else:
+            # every coordinate along d differs by `shift`; with rel only, the entry of smallest magnitude decides; factor-4 margins
+            smallest = min(abs(x) for x in ords[d]) if kind != "image" else min(abs(org[d] + spc[d] * i) for i in range(ext[d] + 1))
+            want = {"abs": True, "both_zero": False, "abs_big": False}.get(which)
+            if which == "rel":
+                want = True if Fr(rel_set) * smallest >= shift * 2 else None     # (entries near zero: no requirement)
+            if want is not None and got != want:
+                ctx.violation("E4", f"{kind} mesh with user tolerances rel={rel_set}, abs={abs_set}: equals answers {got} for a grid shifted by "
+                                    f"{float(shift):.3g}; the statement requires {want}", canon)
+        ctx.traces_validated += 1
     # (1b) tolerances set by the user on a mesh or on a permuted view of it, including exact zeros: the answer follows the
     #      tolerances that were set (receiver's tolerances), in particular a zero relative tolerance is not replaced by a default
     for it in range(80 if q else 2000):
@@ -1868,6 +1933,12 @@ def run_c17(ctx):
                 if M["cf"]["cv"][t0]:
                     M["cf"]["cv"][t0][0][0] = Fr(2 ** 25 + 1)
         P = pad_mesh(M)
+        if rng.random() < 0.25:
+            # the low-dimensional data set stores its vector / tensor fields with three components already (as VTK files do):
+            # only the coordinates need matching, the fields must be left as they are
+            P0 = pad_mesh(M)
+            M = dict(G.copy_mesh(M), pf=P0["pf"], cf=P0["cf"])
+            M["fields_stored_3d"] = True
         variant = rng.choice(["zero", "zero", "zero", "coord", "vector", "tensor"])
         tol = G.dyadic_tol(M)
         site = None
@@ -1896,7 +1967,9 @@ def run_c17(ctx):
         A, B = (M, Pr) if role == "low_is_source" else (Pr, M)
         canon = {"low": json_mesh(M), "padded": json_mesh(Pr), "variant": variant, "site": site, "role": role,
                  "disable_space_dimension_matching": disabled, "reordered": reorder, "disable_mesh_reordering": no_reordering,
-                 "coordinates": M.get("ptype", "float64")}
+                 "coordinates": M.get("ptype", "float64"), "low_fields_stored_3d": bool(M.get("fields_stored_3d"))}
+        if M.get("fields_stored_3d"):
+            ctx.count("c17:low-dimensional mesh with fields already stored with three components")
         try:
             with quiet():
                 warnings.simplefilter("ignore")
